@@ -388,6 +388,9 @@ def c_sampling_cache(ctx, it, cfg):
 # evaluating a size alone or inside an array gives the same interfacial compositions (growth law contract shared with C12)
 from . import c12 as _c12
 REG.contracts.append(_c12.c_curv_growth.contract)
+# the impingement-rate functions on arrays: entry i is computed from point i only, with the caller's cache option, and leave the cached geometric factors alone (C14 contract)
+from . import c14 as _c14
+REG.contracts.append(_c14.c_beta.contract)
 
 
 @REG.contract('computeMobility/no-hidden-cache', ['kawin.diffusion.DiffusionParameters:computeMobility'])
